@@ -602,6 +602,7 @@ SEEDS: list[tuple[Any, ...]] = [
     (("rl_start", "tcp_refused", "delta", "zc_ptr", "tcp_ok", "hello_ok"), False),
     (("rl_start", "tcp_refused"), False, True),
     (("rl_start", "tcp_ok", "hello_ok"), False, True),
+    (("rl_start", "tcp_ok", "hello_ok", "rl_stop"), False),  # stopped, the session still alive
 ]
 
 
